@@ -303,6 +303,52 @@ def check(P: Project, R: Report) -> None:
                  f"the session is created with `{ia.origin(rec)[:70]}` while the answer carries `{ia.origin(ans)[:70]}`: for a request the handler does not answer verbatim (unsupported or padded version) the record differs from what the client was told",
                  sample=f"R2 create_session(…, {rec[:40]}) and protocolVersion: {ans[:40]}")
     R.need(n_ans >= 1, "anchor: no returning path of the initialize handler both creates a session and builds the answer's protocolVersion")
+
+    # … recording the client's info: the `clientInfo` member of the request as it came, not a rendering of it
+    def _direct_client_info(t: str) -> bool:
+        t = t.strip("<>")
+        return bool(re.search(r"\.get\('clientInfo'(, (\{\}|None|dict\(\)))?\)$", t)) or t.endswith("['clientInfo']")
+
+    def _client_info_reason(o: str, host) -> Optional[str]:
+        """None if `o` (the origin of create_session's first argument) is the request's clientInfo member; else what it is"""
+        if _direct_client_info(o):
+            return None
+        m_ = re.match(r"<?unpack:(\w+)\((.*)\)\[(\d+)\]>?$", o.strip())
+        call_txt, idx = (m_.group(1), int(m_.group(3))) if m_ else (None, None)
+        if call_txt is None:
+            m2 = re.match(r"<?(\w+)\((.*)\)>?$", o.strip())
+            call_txt = m2.group(1) if m2 else None
+        g_ = P.maybe_func(host.module.name, call_txt) if call_txt else None
+        if g_ is None and call_txt:
+            k_, obj_ = P.resolve_name(host.module.name, call_txt)
+            g_ = obj_ if k_ == "func" else None
+        if g_ is None:
+            return f"`{o[:70]}`"
+        R.fn(g_.fq)
+        bad_ = []
+        for r_ in walk_local(g_.node):
+            if isinstance(r_, ast.Return) and r_.value is not None:
+                v_ = r_.value.elts[idx] if idx is not None and isinstance(r_.value, ast.Tuple) and idx < len(r_.value.elts) else (r_.value if idx is None else None)
+                if v_ is None or not _direct_client_info(ast.unparse(v_)):
+                    bad_.append(ast.unparse(v_)[:60] if v_ is not None else ast.unparse(r_.value)[:60])
+        return None if not bad_ else f"`{bad_[0]}` (returned by {g_.qual})"
+
+    n_ci = 0
+    seen_ci = set()
+    for st, node in io.ret:
+        created = [e[len("create:"):].split("\x1f") for e in st.events if e.startswith("create:")]
+        if len(created) != 1 or not created[0]:
+            continue
+        o = ia.origin(created[0][0])
+        if o in seen_ci:
+            continue
+        seen_ci.add(o)
+        n_ci += 1
+        why = _client_info_reason(o, ih)
+        R.ob("R2", "the session records the client's info as the request carried it", why is None, f"{ih.module.rel}:{node.lineno}",
+             f"create_session is given {why}: not the request's `clientInfo` member itself — a rendering through a model fills in that model's defaults for members the client left out and drops explicit nulls, so the record is no longer what the client sent",
+             sample=f"R2 client info := {o[:60]}")
+    R.need(n_ci >= 1, "anchor: no returning path of the initialize handler creates a session")
     for st, node in io.ret:
         n = st.count_prefix("create:")
         R.ob("R2", "initialize creates exactly one session per successful path", n == 1, f"{ih.module.rel}:{node.lineno}", f"{n} create_session calls on this path")
